@@ -584,8 +584,15 @@ fn p(r: &mut Rng, xs: &[&str]) -> Value {
 }
 fn int(r: &mut Rng, lo: i64, hi: i64) -> Value {
     let edge = [lo, hi, 0.clamp(lo, hi), 1.clamp(lo, hi), 50.clamp(lo, hi), 100.clamp(lo, hi)];
+    // values that unit conversions, float round trips and narrow integer types get wrong (seed4 C18-2)
+    const TRICKY: [i64; 20] = [
+        999, 1001, 1003, 1009, 1023, 1118, 1235, 4097, 59_999, 60_001, 65_537, 16_777_217, 2_147_483_647, 2_147_483_649,
+        4_294_967_297, 1_000_000_007, 9_007_199_254_740_991, 9_007_199_254_740_990, 123_456_789_123, 86_400_001,
+    ];
     if r.chance(1, 2) {
         json!(*r.pick(&edge))
+    } else if r.chance(1, 3) {
+        json!((*r.pick(&TRICKY)).clamp(lo, hi))
     } else {
         json!(lo + (r.next() % ((hi - lo) as u64 + 1)) as i64)
     }
